@@ -123,6 +123,34 @@ CLAIMED = {
              'stream\'s formatting of int/string under default state and its padding of string literals (`pad`) are modelled, not verified; '
              'the SFINAE dispatch (is_output_streamable / is_collection / is_null_comparable) is exercised by a fixed type family, not modelled.',
         technique='Lean 4 proof (mutual structural induction over printable values; hexdump round trip) + model/implementation correspondence'),
+    'C09': dict(
+        text='Proof over tables regenerated from /repo on every run (tools/translate.py -> Gen/Macros.lean): in each of the 7 clause macros '
+             '`_k` is bound to mkarg<k> for k=1..15 (bind_positional), plain macros pass `=` and LR_ macros `&` (capture_modes), '
+             'PARAM_LISTn / PARAMSn declare and forward p1..pn positionally for n=0..15 (param_lists, params_forwarded), hence `_k` denotes the '
+             'k-th actual argument or an illegal_argument beyond the arity, for all 7 x 16 x 15 combinations (underscore_k_is_kth_argument); '
+             'store model of copy vs reference capture (plain_sees_creation_value, lr_sees_call_value). The C++-language part (reference '
+             'binding, no copies, [=]/[&] semantics) is VALIDATED, not proved, by a generated self-checking program family over arities, '
+             'positions and passing modes incl. const, overloaded and IMPLEMENT_MOCKed functions.',
+        ref='DESIGN.md §4 C09', engine='lean-gen',
+        note='Trusted: Lean kernel; axioms propext/Classical.choice/Quot.sound; the translator (macro bodies -> tables); g++ for the '
+             'language semantics of references, lambda captures and moves; the program family tools/argsfarm.py (ASan+UBSan).',
+        technique='Lean 4 proof over regenerated macro tables (decide on finite tables) + generated-program validation'),
+    'C19': dict(
+        text='Proof over tables regenerated from /repo on every run: every static_assert of the clause modifiers and of operator+ becomes a '
+             'guard (condition over type-state atoms, message); theorems over the generated guards, for clause lists of ANY length and ANY '
+             'position of the offending clauses: multiple TIMES/RT_TIMES, multiple IN_SEQUENCE, repeated RETURN, RETURN+THROW in either order, '
+             'RETURN on void, inverted TIMES, SIDE_EFFECT/THROW/IN_SEQUENCE/RETURN with TIMES(0) in either order, coroutine clauses on ordinary '
+             'functions and vice versa, missing RETURN on non-void are rejected (multiple_times_rejected ... missing_return_rejected); legal forms '
+             'accepted (examples); no macro outside TROMPELOEIL_ with TROMPELOEIL_LONG_MACROS (long_macros_clean). Compile farm: the 68 '
+             'shipped negative programs with their own pass/exception rules, and every clause list up to length 2 (quick) / 3 (thorough) over 4 '
+             'signatures compiled and compared with the model\'s predicted fate and message. Found and repaired: F1.',
+        ref='DESIGN.md §4 C19', engine='lean-gen',
+        note='Trusted: Lean kernel; axioms propext/Classical.choice/Quot.sound; the translator tools/translate.py (a condition it cannot '
+             'parse or a trait it does not know fails the translation = broken obligation); g++ 12.2 evaluating static_assert as written. '
+             'Order-independence of acceptance for all permutations is validated by the farm (all orders up to length 3), not proved. '
+             'Misuses that are single static_asserts outside the clause chain (value from matcher, moving a non-movable mock, deathwatched without '
+             'virtual destructor, MAKE_MOCKn arity) are covered by the shipped programs.',
+        technique='Lean 4 proof over regenerated static_assert/macro tables (translator) + compile-farm validation'),
 }
 
 ALL = ['C%02d' % i for i in range(1, 21)]
@@ -155,6 +183,9 @@ def main():
                    baseline_off_cmd='cmake --build /repo/_build -j16 && /repo/_build/test/self_test',
                    source_commits=[], add_only=True),
         engines=[
+            dict(name='lean-gen', path='tools/translate.py', serves_properties=['C09', 'C19'],
+                 kind_free_text='translator regenerating lean/TrompModel/Gen/{StaticAsserts,Macros}.lean from /repo; theorems in Props/C09, C19; '
+                                'tools/farm.py and tools/argsfarm.py compile/run generated programs'),
             dict(name='lean-print', path='lean/TrompModel/Model/Print.lean', serves_properties=['C18'],
                  kind_free_text='Lean 4 model of print/stream_sentry/hexdump + theorems (Props/C18.lean); harness/print calls trompeloeil::print'),
             dict(name='lean-matcher', path='lean/TrompModel/Model/Matcher.lean', serves_properties=['C10'],
